@@ -17,6 +17,7 @@ import (
 	_ "github.com/emersion/go-webdav/verifharness/props/c10"
 	_ "github.com/emersion/go-webdav/verifharness/props/c11"
 	_ "github.com/emersion/go-webdav/verifharness/props/c12"
+	_ "github.com/emersion/go-webdav/verifharness/props/c13"
 	_ "github.com/emersion/go-webdav/verifharness/props/c14"
 	_ "github.com/emersion/go-webdav/verifharness/props/c15"
 	_ "github.com/emersion/go-webdav/verifharness/props/c16"
